@@ -2,7 +2,7 @@
 from __future__ import annotations
 
 from .. import timeflow
-from ..grammar import cmp_rw
+from ..grammar import cmp_rw, max_len_accepted, length_capacity
 from .wire import Wire, fdesc, TIME_TYPES
 
 PID = "C05"
@@ -26,6 +26,9 @@ def check(rep, ctx):
     R_N = rep.rule("C05-ii-sentinel", "reader and writer use the same single null sentinel", floor=450)
     R_X = rep.rule("C05-iii-text", "reader and writer agree on the text codec and error mode", floor=1000)
     R_C = rep.rule("C05-iv-closure", "the reader's result format is the sibling writer's input format", floor=5000)
+    R_V = rep.rule("C05-v-length-domain", "a length-limited writer accepts every length its prefix format can carry (what the "
+                   "reader can return, the writer can write)", floor=300,
+                   necessary_because="a legacy string of exactly 32767 bytes is decoded but cannot be re-encoded")
     for key, cls, plan in W.classes():
         if plan["error"]:
             rep.check(R_C, False, construct=key, stmt=str(plan["error"]), message=f"no plan: {plan['error']}", **W.floc(cls, cls))
@@ -41,6 +44,18 @@ def check(rep, ctx):
             rep.check(R_C, not [d for d in diffs if "null" not in d and "payload" not in d], construct=construct,
                       stmt=f"{pf['r_codec']['fn']} / {pf['w_codec']['fn']}",
                       message="; ".join(d for d in diffs if "null" not in d and "payload" not in d), **W.codec_loc(pf.get("r_codec")))
+            # length domain of fixed-width length prefixes, through arrays
+            wd = pf["w"]
+            while wd is not None:
+                if wd.get("k") in ("lenpref", "array") and (wd.get("prefix") or {}).get("k") == "fixed":
+                    cap = length_capacity(wd["prefix"], wd.get("bias", 0))
+                    mx = max_len_accepted(wd.get("guards"))
+                    rep.check(R_V, mx is None or cap is None or mx >= cap, construct=wd.get("_codec", construct),
+                              stmt=f"length guard accepts up to {mx}; {wd['prefix']['fmt']} carries {cap}",
+                              message=f"the writer rejects lengths above {mx} although the {wd['prefix']['fmt']} length prefix carries up to {cap}: "
+                                      f"a value of length {cap} is accepted by the reader but cannot be written back",
+                              instance=construct, **W.codec_loc({"fn": wd.get("_codec", ":"), "line": wd.get("_line", 0)}))
+                wd = wd.get("item") or wd.get("inner")
             # sentinel / text, through arrays
             rr, ww = r, w
             where = f["name"]
@@ -82,5 +97,6 @@ def check(rep, ctx):
                     else:
                         rep.check(R_T, True, construct=fn, stmt=timeflow.show(d["conv"]), instance=f"{construct}|{side}")
     rep.sample({"rule": "C05-i-time", "example": "read_datetime_i64: int64 ms -> / 1000 -> fromtimestamp(float) -> replace(microsecond=0)"})
+    W.finish(rep)
     rep.extra.update(classes=len(S.classes))
     rep.trusted_base += ["IEEE-754 binary64 spacing argument for T-float64/T-trunc", "datetime/timedelta constructor semantics as modelled in kverif/timeflow.py"]
